@@ -129,6 +129,40 @@ Theorem C17_frame : forall c id total vals s s',
 Proof. exact C17_frame_proof. Qed.
 Print Assumptions C17_frame.
 
+(* Parameter updates (exomint / feedistribution MsgUpdateParams, with or without ValidateBasic, right or wrong authority,
+   ANY requested identifier and reward): the identifier left in force always names an epoch of the epochs store, and the
+   reward stays non-negative — over every sequence of updates. *)
+Theorem C17_update_keeps_epoch : forall known reqs prev,
+  known_id known (fst prev) = true -> 0 <= snd prev ->
+  known_id known (fst (mint_updates known prev reqs)) = true /\ 0 <= snd (mint_updates known prev reqs).
+Proof. exact mint_updates_keep. Qed.
+Print Assumptions C17_update_keeps_epoch.
+
+Theorem C17_dist_update_keeps_epoch : forall auth known prev req,
+  known_id known (fst prev) = true -> known_id known (fst (snd (dist_update auth known prev req))) = true.
+Proof. exact dist_update_keeps_known. Qed.
+Print Assumptions C17_dist_update_keeps_epoch.
+
+(* ... so minting can not be switched off by an update: at the end of the epoch that any sequence of updates leaves
+   configured (an epoch that exists), exactly the configured reward is minted. *)
+Theorem C17_configured_reward_minted : forall known reqs prev c id total vals s s',
+  known_id known (fst prev) = true -> 0 <= snd prev ->
+  c_mint_id c = fst (mint_updates known prev reqs) -> c_reward c = snd (mint_updates known prev reqs) ->
+  id = fst (mint_updates known prev reqs) ->
+  epoch_end c id total vals s = Ok s' ->
+  known_id known id = true /\ s_supply s' = s_supply s + snd (mint_updates known prev reqs).
+Proof. exact C17_configured_reward_minted_proof. Qed.
+Print Assumptions C17_configured_reward_minted.
+
+(* the monitor's update clause and the correspondence check are true of the update rules of the model *)
+Theorem C17_update_meets_statement : forall k vb auth known prev req,
+  (k = UMint \/ k = UDist) ->
+  let u0 := mkUpd k vb auth known prev req false prev in
+  monitor_upd (mkUpd k vb auth known prev req (fst (upd_spec u0 prev)) (snd (upd_spec u0 prev))) = true /\
+  check_upd (mkUpd k vb auth known prev req (fst (upd_spec u0 prev)) (snd (upd_spec u0 prev))) = true.
+Proof. exact monitor_upd_accepts_model_proof. Qed.
+Print Assumptions C17_update_meets_statement.
+
 (* ---- the code BEFORE repo_patches/fix-c17-*.patch (kept in the model as [epoch_end_legacy]) ---- *)
 
 (* booked claims exceed the amount moved as soon as one staker is paid *)
@@ -168,3 +202,14 @@ Proof. eexists. split; [vm_compute; reflexivity|]. vm_compute. repeat split; ref
 Example ex_legacy_differs :
   epoch_end_legacy ex_cfg "minute"%string 9 ex_vals (mkSt 5000000 1000003 0 0 0 [] [] []) = Panic.
 Proof. vm_compute. reflexivity. Qed.
+
+(* white space around an identifier: well-formed for ValidateEpochIdentifierString, but names no epoch; the previous
+   identifier stays in force and the new reward is taken *)
+Example ex_update_whitespace :
+  mint_update true true ["day"; "hour"; "minute"; "week"]%string ("minute"%string, 20) ("minute "%string, 30)
+  = (false, ("minute"%string, 30)) /\
+  dist_update true ["day"; "hour"; "minute"; "week"]%string ("minute"%string, 0) (" minute"%string, 5)
+  = (true, ("minute"%string, 0)) /\
+  mint_update true true ["day"; "minute"]%string ("minute"%string, 20) ("  "%string, 30) = (true, ("minute"%string, 20)) /\
+  mint_update false true ["day"; "minute"]%string ("minute"%string, 20) ("day"%string, -1) = (false, ("day"%string, 20)).
+Proof. repeat split; reflexivity. Qed.
